@@ -694,6 +694,39 @@ def scenario_overlap(ctx, exe, tag):
         D.remove()
 
 
+def scenario_holder_killed_mid_start(ctx, exe, tag, which):
+    """A serves; B starts with its `which`-th fcntl delayed (1 = the F_SETLK itself, 2 = the F_GETLK that follows a
+    refused F_SETLK); A is SIGKILLed during the delay; B goes on; then C starts.  Whatever B decides, at most one
+    munged may end up bound to the socket path, and after C exactly one must serve."""
+    D = Dir(ctx, tag)
+    fails = []
+    try:
+        a = popen(D, D.argv(exe))
+        if not wait_serving(D):
+            return ["A did not reach service"], {}
+        b = popen(D, ["strace", "-f", "-o", "/dev/null", "-e", "trace=fcntl", "-e",
+                      "inject=fcntl:delay_enter=1200000:when=%d" % which] + D.argv(exe))
+        time.sleep(0.5)                      # B is inside the delayed call
+        os.kill(a.pid, signal.SIGKILL)
+        a.wait(timeout=5)
+        time.sleep(1.6)                      # B has gone on: either it failed, or it took over properly
+        live_b = D.procs()
+        c = popen(D, D.argv(exe))
+        time.sleep(1.2)
+        live = D.procs()
+        info = {"which_fcntl": which, "live_after_B": live_b, "live_after_C": live, "snapshot": D.snapshot()}
+        if len(live) > 1:
+            fails.append("the lock holder was SIGKILLed while another start was between its fcntl calls (delay on fcntl #%d): "
+                         "%d munged processes are alive on one socket path afterwards (%s)" % (which, len(live), live))
+        elif len(live) == 0:
+            fails.append("after the holder was SIGKILLed during a concurrent start, neither that start nor a fresh one serves")
+        elif canary(D.sock) is not None:
+            fails.append("after the holder was SIGKILLed during a concurrent start, the surviving daemon does not serve")
+        return fails, info
+    finally:
+        D.remove()
+
+
 # ---------------------------------------------------------------------------------------------------
 # model-side checks through the oracle
 # ---------------------------------------------------------------------------------------------------
@@ -1054,6 +1087,16 @@ def _run_live(ctx, exe, oracle, concrete, corr):
                                                    "(no --force) on the same paths"}))
         ctx.cov["files_left_at_kill_point"] = lefts
         ctx.log("crash points done: %d kill points, %d with failures" % (len(cspecs), sum(1 for _, (f, _) in res if f)))
+    # ---- the holder dies while another start is between its lock calls
+    if replay is None:
+        for which in ((1, 2) if ctx.thorough else (2,)):
+            fl, info = scenario_holder_killed_mid_start(ctx, exe, "hk%d" % which, which)
+            ctx.count(("holder-killed-mid-start", which))
+            dist["holder_killed_mid_start"] = dist.get("holder_killed_mid_start", 0) + 1
+            if fl:
+                concrete.append((fl[0], {"scenario": "holder-killed-mid-start", "info": info,
+                                         "how": "start A; start B under strace -e inject=fcntl:delay_enter=1200000:when=%d; "
+                                                "kill -9 A during the delay; wait; start C" % which}))
     # ---- finding F-C15-unlink (thorough, or when replaying it)
     if (ctx.thorough and replay is None and not os.environ.get("VERIF_C15_SKIP_FINDING")) or \
             (replay and replay.get("scenario") == "overlap"):
